@@ -18,7 +18,9 @@ from jsonrpclib.config import Config
 
 PASS = 100
 
-NAMES = ("add", "a.b", "ns.sub.fn", "méthode", "keys", "with space", "_private", "x", "request", "clear", "Ünï.cödé")
+NAMES = ("add", "a.b", "ns.sub.fn", "méthode", "keys", "with space", "_private", "x", "request", "clear", "Ünï.cödé",
+         # begin or end with two underscores without being special names
+         "__mangled", "flush__", "__x_")
 
 
 class FakeUUID(object):
